@@ -1903,7 +1903,7 @@ class RepeatingEngine(Engine):
                         self.kill()
                     else:
                         #I didn't execute the kernel or it failed
-                        if self._stateDict['repeatRetries'] == 0:
+                        if self._stateDict['repeatRetries'] <= 0:
                             self.log.info("There are no more repeatRetries for me")
                             self.kill()
                         else:
